@@ -47,12 +47,12 @@ def run_impl(case):
 
 
 def line(case, impl):
-    return None if _x(case) else S.line(case, impl)
+    return X.xline(case, impl) if _x(case) else S.line(case, impl)
 
 
 def tags(case, impl, model):
     if _x(case):
-        return ["stream:extras"] + (["extras:skipped"] if "skip" in impl else ["extras:" + k for k in impl.get("kinds", [])])
+        return ["stream:extras", "extras-model:" + ("line" if impl.get("xline") else "oracle-only")] + (["extras:skipped"] if "skip" in impl else ["extras:" + k for k in impl.get("kinds", [])])
     return S.tags(case, impl, model)
 
 
@@ -66,7 +66,7 @@ def describe(case, impl, model):
 
 def judge(case, impl, model):
     if _x(case):
-        return None, X.judge(case, impl)
+        return X.xcorrespond(case, impl, model), X.judge(case, impl)
     msg = S.correspondence(case, impl, model)
     fails = []
     if "unbuildable" in impl or "abstraction_mismatch" in impl or "ser" not in impl:
